@@ -20,7 +20,8 @@ from pvc.engine import Obligation
 from . import C02
 
 LEVEL = "exploration"
-LEVEL_TEXT = ("ADDITIVE, UPPER and RECOVERY are the bounded symbolic obligations of C02 on the real summation / site-cascade / read-out functions; "
+LEVEL_TEXT = ("ADDITIVE is proved for ANY number of sub-zones (C09.additive.u: the summation loop of the real function cut with an inductive invariant, pvc/loopcut.py; utilities per side 0..2). "
+              "ADDITIVE (bounded sibling with inputs), UPPER and RECOVERY are the bounded symbolic obligations of C02 on the real summation / site-cascade / read-out functions; "
               "ORDER is an exhaustive enumeration of zone trees up to depth 3 through the real recursion with the two targeting entry points "
               "replaced by recorders. The lower bound (TS >= site DI) is not covered by this technique.")
 NOT_COVERED = ["total-site targets never smaller than the site's own direct-integration targets for ALL sites (global optimality across two cascades): only the small native scope of C09.ordering.b"]
@@ -188,9 +189,10 @@ def _deps(module, names, prefix, why):
 def obligations():
     obs = []
     for o in C02.obligations():
-        if o.name in ("C02.tz.sum.b", "C02.ts.cascade.b", "C02.ts.readout"):
-            nm = {"C02.tz.sum.b": "C09.additive.b", "C02.ts.cascade.b": "C09.upper.b", "C02.ts.readout": "C09.recovery"}[o.name]
-            obs.append(Obligation(nm, o.fn, kind=o.kind, functions=o.functions, bound=o.bound, max_paths=o.max_paths, stubs=o.stubs, doc=o.doc))
+        if o.name in ("C02.tz.sum.b", "C02.tz.sum.u", "C02.ts.cascade.b", "C02.ts.readout"):
+            nm = {"C02.tz.sum.b": "C09.additive.b", "C02.tz.sum.u": "C09.additive.u", "C02.ts.cascade.b": "C09.upper.b", "C02.ts.readout": "C09.recovery"}[o.name]
+            obs.append(Obligation(nm, o.fn, kind=o.kind, functions=o.functions, bound=o.bound, max_paths=o.max_paths, stubs=o.stubs, doc=o.doc,
+                                  expect=o.expect if nm.endswith(".u") else ()))
     obs.append(Obligation("C09.order.b", ob_order, kind="bounded", bound="every zone tree of the listed shapes up to depth 3 x both operation/process option flags (exhaustive)",
                           functions=[main.get_targets, main._get_site_targets, main._get_process_targets, main._get_unit_operation_targets], max_paths=100000))
     obs.append(Obligation("C09.ordering.b", ob_ordering, kind="smallscope", functions=[main.pinch_analysis_service], max_paths=10000,
